@@ -127,7 +127,10 @@ EXTRA={
    '//@ loop 2 invariant [C03] tail.rest: all(i, 0, list.count, list.seq[i] == gSeq0[i + gTrimHead])',
    '//@ assertbefore "output.data = rstrOK" [C03] kept.len: list != nil ==> list.count == specTrimLen(old(start), old(stop), gN0)',
    '//@ assertbefore "output.data = rstrOK" [C03] kept.items: list != nil ==> all(i, 0, list.count, list.seq[i] == gSeq0[i + specTrimStart(old(start), gN0)])'],
- 'save': ['// the saver touches the snapshot files, the dirty flag and the lock - nothing else (the table of databases in particular stays as it is)', '//@ modifies ghost.held redisDict.dirty ghost.fsLivePath ghost.fsLiveOK ghost.fsOpenPath ghost.fsHdrs ghost.fsHdrCount ghost.fsKeys ghost.fsVals ghost.fsFlags ghost.fsBroken ghost.fsClosed ghost.fsReplaced'],
+ 'save': ['// a snapshot that could not be written leaves the database marked as changed, so the next pass (and the final save) tries again',
+            '//@ ensures [C19] failed.stays.dirty: err != nil ==> dsc.ds.data.dirty == old(dsc.ds.data.dirty)',
+            '//@ ensures [C19] clean.only.after.save: old(dsc.ds.data.dirty) && !dsc.ds.data.dirty ==> err == nil',
+            '// the saver touches the snapshot files, the dirty flag and the lock - nothing else (the table of databases in particular stays as it is)', '//@ modifies ghost.held redisDict.dirty ghost.fsLivePath ghost.fsLiveOK ghost.fsOpenPath ghost.fsHdrs ghost.fsHdrCount ghost.fsKeys ghost.fsVals ghost.fsFlags ghost.fsBroken ghost.fsClosed ghost.fsReplaced'],
  'sort': [
    # SORT ... STORE: the destination is replaced; an empty result leaves no key (C06: no empty list)
    '//@ assertbefore "output.data = respInt(len(a))" [C06] store.noempty: len(a) == 0 ==> !dsc.ds.data.vdom[destKeyName]'],
